@@ -1,9 +1,9 @@
-(* Lemmas about Model/Factorized.v (part 20: cp_to_unfolded with a negative mode.
-   The order-1 branch of the code accepts mode -1 explicitly and tl.unfold (behind the to_unfolded of every other family) accepts
-   negative modes, but for order >= 2 cp_to_unfolded(cp, -k) selects factor N - k by Python's negative indexing while
-   khatri_rao(skip_matrix=-k) skips nothing: a genuine defect, the result has prod of ALL mode sizes columns. *)
-From Coq Require Import List Arith ZArith Lia Bool.
-From TLV Require Import Base.Shape Base.PyList Base.Tensor Base.BigSum Base.Ops Model.Base Model.Factorized.
+(* Lemmas about Model/Factorized.v (part 20: cp_to_unfolded with a negative mode, after the repair b8d05d5.
+   cp_to_unfolded_neg w fs k models cp_to_unfolded(cp, mode=-k): order 1 accepts -1 only; order N >= 2 accepts -N <= mode < 0 and
+   normalises it, so mode -k IS mode N - k (before the repair factors[-k] was multiplied with the Khatri-Rao product of ALL factors). *)
+From Coq Require Import List Arith ZArith Lia Bool Ring.
+From TLV Require Import Base.Shape Base.PyList Base.Tensor Base.BigSum Base.Ops Model.Base Model.Factorized
+  Proofs.FactorizedProofs Proofs.FactorizedProofs2.
 Import ListNotations.
 
 Section P.
@@ -20,22 +20,32 @@ Proof.
   split; [reflexivity|]. intros k Hk. destruct (Nat.eqb_spec k 1); [contradiction | reflexivity].
 Qed.
 
-(* order >= 2: a mode below -N is rejected (IndexError) *)
+(* order N >= 2: a mode below -N (and "-0") is rejected ... *)
 Theorem cp_unfolded_neg_out_of_range (w : option tensor) fs shp R k :
-  validate_cp w fs = Ok (shp, R) -> length shp <> 1 -> length fs < k -> cp_to_unfolded_neg Op w fs k = Err.
+  validate_cp w fs = Ok (shp, R) -> length shp <> 1 -> (k = 0 \/ length shp < k) -> cp_to_unfolded_neg Op w fs k = Err.
 Proof.
   intros Hv H1 Hk. unfold cp_to_unfolded_neg, cp_to_unfolded_from_neg. rewrite Hv. cbn [rbind fst].
   destruct (Nat.eqb_spec (length shp) 1); [contradiction|].
-  destruct (negb (all_2d (as_matrices fs))); [reflexivity|].
-  unfold as_matrices. rewrite map_length.
-  destruct (Nat.leb_spec k (length fs)); [lia|]. now rewrite andb_false_r.
+  destruct (Nat.leb_spec 1 k); cbn [andb]; [|reflexivity].
+  destruct (Nat.leb_spec k (length shp)); [lia | reflexivity].
+Qed.
+
+(* ... and mode -k with 1 <= k <= N is mode N - k *)
+Theorem cp_unfolded_neg_eq (w : option tensor) fs shp R k :
+  validate_cp w fs = Ok (shp, R) -> length shp <> 1 -> 1 <= k <= length shp ->
+  cp_to_unfolded_neg Op w fs k = cp_to_unfolded Op w fs (length shp - k).
+Proof.
+  intros Hv H1 Hk. unfold cp_to_unfolded_neg, cp_to_unfolded, cp_to_unfolded_from_neg. rewrite Hv. cbn [rbind fst].
+  destruct (Nat.eqb_spec (length shp) 1); [contradiction|].
+  destruct (Nat.leb_spec 1 k); [|lia]. destruct (Nat.leb_spec k (length shp)); [|lia]. reflexivity.
 Qed.
 End P.
 
-(* the defect: mode -1 of a 2 x 3 CP tensor is not its mode-1 unfolding (3 x 2) but a 3 x 6 matrix *)
+(* the former witness of the defect (before b8d05d5 the answer was a 3 x 6 matrix): mode -1 of a 2 x 3 CP tensor is its mode-1 unfolding *)
 Definition nm_fs : list (tensor Z) := [mk [2; 2] [1; 2; 3; 4]%Z; mk [3; 2] [1; 0; 2; -1; 1; 1]%Z].
-Theorem cp_unfolded_negative_mode_refuted :
+Lemma before_b8d05d5_cp_unfolded_negative_mode :
   validate_cp None nm_fs = Ok ([2; 3], 2) /\
   cp_to_unfolded Zops None nm_fs 1 = Ok (mk [3; 2] [1; 3; 0; 2; 3; 7]%Z) /\
-  cp_to_unfolded_neg Zops None nm_fs 1 = Ok (mk [3; 6] [1; 2; 1; 3; 6; 3; 2; 6; 0; 6; 16; 2; 1; 0; 3; 3; 2; 7]%Z).
+  cp_to_unfolded_neg Zops None nm_fs 1 = Ok (mk [3; 2] [1; 3; 0; 2; 3; 7]%Z) /\
+  cp_to_unfolded_neg Zops None nm_fs 3 = Err.
 Proof. repeat split; vm_compute; reflexivity. Qed.
